@@ -85,6 +85,9 @@ TraceNext ==
        [] Ev = "final"                -> Obs(fpc = "idle" /\ \A u \in Updaters : upc[u] = "idle")
        [] Ev = "e2e"                  -> Obs(E2EOK(Rec[l]))
        [] Ev = "sampled"              -> Obs(SampledOK(Rec[l]))
+       \* look-up / increment / drop from several threads (no handle kept) against back-to-back flushes: per key the deltas
+       \* sent add up to the increments made (CounterConservation at quiescence), every line a counter message of a known key
+       [] Ev = "lookup"               -> Obs(A[3] = 0 /\ Rec[l].made = Rec[l].sent)
        [] OTHER -> FALSE
 
 TraceInit == Init /\ l = 1
